@@ -276,3 +276,32 @@ macro_rules! iter_split {
 
 iter_split!(c01_iter_split32, 32, false);
 iter_split!(c01_iter_rev_split32, 32, true);
+
+/// small rings (capacity 1..=8): the whole observable sequence after from_parts and after one push, with
+/// concrete loops (cheap even if the implementation loops over the buffer)
+#[kani::proof]
+#[kani::unwind(10)]
+fn c01_small_ring_sequence() {
+	let (mut w, arr, n, idx) = any_ring::<8>();
+	let mut k = 0;
+	while k < n {
+		assert!(w[k as PeriodType] == seq(&arr, n, idx, n - 1 - k), "small ring: w[k] is the k-th newest");
+		k += 1;
+	}
+	let mut it = w.iter_rev();
+	let mut j = 0;
+	while j < n {
+		assert!(it.next() == Some(&seq(&arr, n, idx, j)), "small ring: iter_rev yields oldest first");
+		j += 1;
+	}
+	assert!(it.next().is_none());
+	let x: u8 = kani::any();
+	assert!(w.push(x) == seq(&arr, n, idx, 0), "small ring: push returns the oldest");
+	let mut k = 1;
+	while k < n {
+		assert!(w[k as PeriodType] == seq(&arr, n, idx, n - k), "small ring: contents shifted by one after push");
+		k += 1;
+	}
+	assert!(w[0] == x);
+	kani::cover!(n == 8 && idx == 5, "largest small ring at a middle phase");
+}
